@@ -1,18 +1,19 @@
 /*UNIT
 {"props": ["C08"], "src": ["lib/loop.c", "lib/loop_timerlist.c"], "mode": "plain", "kind": "bounded",
- "bound": "at most 3 slots in the timers array before the add (the scan for a free slot is unwound 5 times with unwinding assertion), slot contents arbitrary; other pending timers: 0, 1 or 2 by variant (constants: symbolic heap sizes exhaust memory); the check-word retry loop runs at most 3 times (assumption on random())",
+ "bound": "at most 3 slots in the timers array before the add (the scan for a free slot is unwound 5 times with unwinding assertion), slot contents arbitrary; other pending timers: 0, 1 or 2 by variant (constants: symbolic heap sizes exhaust memory); the 200-try check-word loop is fully unwound (compile-time constant) in the variants added*, and cut to 3 tries by assumption in the failure-path variants",
  "functions": ["qb_loop_timer_add", "_get_empty_array_position_", "_timer_from_handle_", "timerlist_add_duration", "timerlist_add", "qb_loop_timer_del (refusal of the slot's previous handle)"],
- "unwindset": ["_get_empty_array_position_.0:5", "qb_loop_timer_add.0:4", "timerlist_heap_sift_up.0:3", "timerlist_heap_sift_down.0:3"],
+ "unwindset": ["_get_empty_array_position_.0:5", "qb_loop_timer_add.0:201", "timerlist_heap_sift_up.0:3", "timerlist_heap_sift_down.0:3"],
  "defines": ["-DTL_NMAX=2"],
  "stubs": ["qb_array_index/qb_array_grow (C19 contract over the slot model; a slot inside the array can always be indexed)", "malloc/realloc (fresh or NULL)", "clock (ghost value)", "pthread_mutex_* (sequential no-ops)",
-           "random(): any value in [0, 2^31), assumed to differ from the check word the slot carried before and to be non-zero at least once in 3 tries (the code retries up to 200 times)"],
+           "random(): any value in [0, 2^31), assumed to differ from the check word the slot carried before and to be non-zero at least once in the 200 tries the code makes (within 3 tries in the failure-path variants)"],
  "drops": ["qb_util_log/qb_util_perror diagnostics compiled out (stubs/nolog.h)"],
  "expect_classes": ["assertion"], "timeout": 250, "cbmc_flags": ["--no-malloc-may-fail"],
  "variants": [{"vname": "added", "defines": ["-DTL_NMAX=2", "-DV_ADDED", "-DV_N=1", "-DV_HEAP_FULL=0"]},
               {"vname": "added_heap_grows", "defines": ["-DTL_NMAX=2", "-DV_ADDED", "-DV_N=2", "-DV_HEAP_FULL=1"]},
-              {"vname": "heap_enomem", "defines": ["-DTL_NMAX=2", "-DV_HEAP_ENOMEM", "-DV_N=1", "-DV_HEAP_FULL=0"]},
-              {"vname": "heap_grow_enomem", "defines": ["-DTL_NMAX=2", "-DV_HEAP_ENOMEM", "-DV_N=1", "-DV_HEAP_FULL=1"]},
-              {"vname": "grow_fails", "defines": ["-DTL_NMAX=2", "-DV_GROW_FAILS", "-DV_N=0", "-DV_HEAP_FULL=0"]}]}
+              {"vname": "heap_enomem", "unwindset": ["_get_empty_array_position_.0:5", "qb_loop_timer_add.0:4", "timerlist_heap_sift_up.0:3", "timerlist_heap_sift_down.0:3"], "defines": ["-DV_RANDOM_TRIES=3", "-DTL_NMAX=2", "-DV_HEAP_ENOMEM", "-DV_N=1", "-DV_HEAP_FULL=0"]},
+              {"vname": "heap_grow_enomem", "unwindset": ["_get_empty_array_position_.0:5", "qb_loop_timer_add.0:4", "timerlist_heap_sift_up.0:3", "timerlist_heap_sift_down.0:3"], "defines": ["-DV_RANDOM_TRIES=3", "-DTL_NMAX=2", "-DV_HEAP_ENOMEM", "-DV_N=1", "-DV_HEAP_FULL=1"]},
+              {"vname": "grow_fails", "unwindset": ["_get_empty_array_position_.0:5", "qb_loop_timer_add.0:4", "timerlist_heap_sift_up.0:3", "timerlist_heap_sift_down.0:3"], "defines": ["-DV_RANDOM_TRIES=3", "-DTL_NMAX=2", "-DV_GROW_FAILS", "-DV_N=0", "-DV_HEAP_FULL=0"]},
+              {"vname": "bad_priority", "unwindset": ["_get_empty_array_position_.0:5", "qb_loop_timer_add.0:4", "timerlist_heap_sift_up.0:3", "timerlist_heap_sift_down.0:3"], "defines": ["-DV_RANDOM_TRIES=3", "-DTL_NMAX=2", "-DV_BAD_PRIORITY", "-DV_N=0", "-DV_HEAP_FULL=0"]}]}
 */
 /* qb_loop_timer_add: T is the slot the new timer lands in (prophecy: the first EMPTY slot of the array, else the
  * appended one), O stands for every other slot.
@@ -24,11 +25,16 @@
  *               other slot and every other pending timer is untouched;
  *  heap_enomem  the heap entry cannot be allocated: the add reports an error and no registration is left behind
  *               (no live slot, nothing pending, and the handle that may have been written is not reported as running);
- *  grow_fails   no free slot and the array cannot grow: the add reports an error and changes nothing. */
+ *  grow_fails   no free slot and the array cannot grow: the add reports an error and changes nothing;
+ *  bad_priority a priority outside LOW..HIGH: no timer is accepted whose priority the loop cannot dispatch at (the
+ *               priority is the index of the level the expired timer is queued at). */
 #include <stdint.h>
+#ifndef V_RANDOM_TRIES
+#define V_RANDOM_TRIES 200   /* the failure-path variants use 3 (the check word plays no role there and the full unwinding is slow) */
+#endif
 static int32_t v_old_check;
 static unsigned v_random_calls;
-static int v_random_ok(int32_t r) { v_random_calls++; return r != v_old_check && (v_random_calls < 3 || r > 0); }
+static int v_random_ok(int32_t r) { v_random_calls++; return r != v_old_check && (v_random_calls < V_RANDOM_TRIES || r > 0); }
 #define TS_RANDOM_ASSUME(r) v_random_ok(r)
 #include "ts.h"
 
@@ -56,7 +62,11 @@ void harness(void)
 	uint8_t nd_heap_full = V_HEAP_FULL;
 	VERIF_ND(uint8_t, nd_want_handle);
 	VERIF_ND(uint8_t, nd_have_fn);
+#ifdef V_BAD_PRIORITY
+	ASSUME(nd_n <= TL_NMAX && (nd_p < QB_LOOP_LOW || nd_p > QB_LOOP_HIGH));
+#else
 	ASSUME(nd_n <= TL_NMAX && nd_p >= QB_LOOP_LOW && nd_p <= QB_LOOP_HIGH);
+#endif
 	verif_alloc_calls = 0; verif_alloc_never_fails = 0; verif_mutex_depth = 0;
 	tl_fn = make_job_from_tmo;
 	verif_Tidx = nd_tidx;
@@ -84,7 +94,7 @@ void harness(void)
 	qb_loop_timer_handle h = 0;
 	verif_grow_failures = 0;
 	unsigned alloc0 = verif_alloc_calls;
-#ifdef V_ADDED
+#if defined(V_ADDED) || defined(V_BAD_PRIORITY)
 	verif_alloc_never_fails = 1; verif_grow_may_fail = 0;
 #endif
 #ifdef V_HEAP_ENOMEM
@@ -98,6 +108,12 @@ void harness(void)
 
 	int32_t rc = qb_loop_timer_add(ts_l, (enum qb_loop_priority)nd_p, nd_duration, &v_token, nd_have_fn ? verif_timer_cb : NULL, nd_want_handle ? &h : NULL);
 
+#ifdef V_BAD_PRIORITY
+	COVER(nd_p == QB_LOOP_HIGH + 1 && nd_have_fn);
+	COVER(nd_p < 0 && nd_have_fn);
+	POST(rc != 0 || (VT->p >= QB_LOOP_LOW && VT->p <= QB_LOOP_HIGH), "no timer is accepted with a priority the loop cannot dispatch at");
+	return;
+#endif
 #ifdef V_GROW_FAILS
 	COVER(verif_grow_failures == 1);
 	POST(verif_grow_failures == 0 || rc != 0, "when the timers array cannot grow the add is refused with an error");
@@ -117,7 +133,7 @@ void harness(void)
 		COVER(count == 0);
 		COVER(v_random_calls > 1);
 		COVER(!nd_want_handle);
-#else
+#elif !defined(V_BAD_PRIORITY)
 		COVER(1);
 #endif
 		POST(nd_have_fn, "a timer without a callback is refused");
